@@ -5,6 +5,7 @@ package harness
 import (
 	"fmt"
 	"math"
+	"sync"
 	"testing"
 	"testing/synctest"
 	"time"
@@ -15,6 +16,75 @@ import (
 func init() {
 	streams["cache_f6"] = streamCacheF6
 	streams["cache_f9"] = streamCacheF9
+	streams["cache_f12"] = streamCacheF12
+}
+
+// F12 (C04): SetWithTTL and Del call OnExit(prev) after the store update, outside every lock.
+// A Clear that runs entirely inside that window returns while the replaced value has not been
+// passed to OnExit yet ("no later than the return of the next Clear" is violated; the value is
+// released a moment later by the overlapping call itself).  The yield point vpSetAfterUpdate
+// holds the overwriting Set exactly there.
+func streamCacheF12(r *Run) {
+	r.Cases++
+	var mu sync.Mutex
+	exits := map[uint64]int{}
+	armed := false
+	reached := make(chan struct{})
+	release := make(chan struct{})
+	ristretto.VerifPointFn = func(id int) {
+		mu.Lock()
+		hit := id == 1 && armed
+		if hit {
+			armed = false
+		}
+		mu.Unlock()
+		if hit {
+			close(reached)
+			<-release
+		}
+	}
+	defer func() { ristretto.VerifPointFn = nil }()
+	cache, err := ristretto.NewCache(&ristretto.Config[uint64, uint64]{
+		NumCounters: 100, MaxCost: 100, BufferItems: 64, IgnoreInternalCost: true,
+		OnExit: func(v uint64) {
+			mu.Lock()
+			exits[v]++
+			mu.Unlock()
+		},
+	})
+	if err != nil {
+		r.Fail("*", "NewCache: "+err.Error(), "")
+		return
+	}
+	ok7 := cache.Set(1, 7, 1)
+	cache.Wait()
+	mu.Lock()
+	armed = true
+	mu.Unlock()
+	done := make(chan struct{})
+	go func() {
+		cache.Set(1, 8, 1) // overwrites 7 in the store, then parks before OnExit(7)
+		close(done)
+	}()
+	<-reached
+	cache.Clear()
+	mu.Lock()
+	atClearReturn := exits[7]
+	mu.Unlock()
+	close(release)
+	<-done
+	cache.Close()
+	mu.Lock()
+	final := exits[7]
+	mu.Unlock()
+	r.Emit("f12 ok7=%v exits7_at_clear_return=%d exits7_final=%d", ok7, atClearReturn, final)
+	if ok7 && atClearReturn == 0 && final == 1 {
+		r.FailSig("C04", "F12", "value 7 (accepted, then overwritten by a Set that is between store.Update and OnExit(prev)) had not been passed to OnExit when a concurrent Clear returned; it was released afterwards by the overwriting Set",
+			"Set(1,7); Wait; goroutine: Set(1,8) held at vpSetAfterUpdate; Clear() returns; release the Set")
+	}
+	if final != 1 {
+		r.Fail("C04", fmt.Sprintf("value 7 was passed to OnExit %d times", final), "F12 witness history")
+	}
 }
 
 // F6 (C14): an insert whose application is delayed past the sweep of its expiry bucket is
